@@ -355,6 +355,51 @@ def updOmitSpace (o : Opts) (name : List Char) (cur : Bool) : Bool :=
   else if isBlock name then true
   else cur
 
+/-- the ordinary text branch: collapse whitespace and replace references, trim left if the pending-space flag is
+    set, trim right by look-ahead; result: new pending-space flag and the bytes written -/
+def textNormal (keepWs omitSpace : Bool) (data : List Char) (rest : List HTok) : Bool × List Char :=
+  let d := replaceWsEntities C03Tables.entitiesMap C03Tables.textRevEntitiesMap data
+  let d1 := if omitSpace && headIs isWhitespace d then d.drop 1 else d
+  match d1.getLast? with
+  | none => (true, [])
+  | some l =>
+    if isWhitespace l then
+      if trimRight keepWs rest then (false, d1.dropLast) else (true, d1)
+    else (false, d1)
+
+/-- the end-tag branch (`st0`: state with the skip flag already cleared) -/
+def endStep (o : Opts) (st0 : St) (name data : List Char) (rest : List HTok) : St × List Char :=
+  let st1 := { st0 with rawTag := [] }
+  let st2 := if hashIs name "template" then { st1 with omitSpace := true } else st1
+  let st3 := if hashIs name "pre" then { st2 with inPre := false } else st2
+  if isDroppedTag o name then (st3, [])
+  else
+    let dt := hashIs name "option" || hashIs name "optgroup"
+    if omitEndTag o name rest then ({ st3 with dropText := dt }, [])
+    else ({ st3 with omitSpace := updOmitSpace o name st3.omitSpace, dropText := dt }, endTagBytes name data)
+
+/-- `<script></script>` / `<style></style>` without attributes: both tags are skipped -/
+def emptyRawElement (name : List Char) (attrs : List Attr) (rest : List HTok) : Bool :=
+  has (tagTraits name) C03Tables.rawTag && attrs.isEmpty && (hashIs name "script" || hashIs name "style") &&
+  (match rest with | .endTag _ _ :: _ => true | _ => false)
+
+/-- start tag, state before anything is written: raw-text element bookkeeping and `inPre` -/
+def startPre (st0 : St) (name : List Char) (attrs : List Attr) : St :=
+  let isRaw := has (tagTraits name) C03Tables.rawTag
+  let raw1 := if isRaw then name else []
+  let raw2 := if isRaw && !attrs.isEmpty && hashIs name "style" &&
+                 attrs.any (fun a => hashOf a.name == s "amp-boilerplate") then [] else raw1
+  let st2 := { st0 with rawTag := raw2, rawMediatype := if isRaw then [] else st0.rawMediatype }
+  if hashIs name "pre" then { st2 with inPre := true } else st2
+
+/-- start tag, state after the tag was written (`mt`: value of a `type` attribute of a raw-text element) -/
+def startPost (o : Opts) (st3 : St) (name : List Char) (rest : List HTok) (mt : Option (List Char)) : St :=
+  let st4 := { st3 with omitSpace := updOmitSpace o name st3.omitSpace }
+  let st5 := match mt with | some m => { st4 with rawMediatype := m } | none => st4
+  let st6 := { st5 with dropText := hashIs name "select" || hashIs name "optgroup" }
+  let sameEnd := match rest with | .endTag n _ :: _ => hashOf n == hashOf name | _ => false
+  if tagTraits name = C03Tables.normalTag && sameEnd then { st6 with omitSpace := false } else st6
+
 def step (o : Opts) (ext : Ext) (sub : Sub) (st : St) (t : HTok) (rest : List HTok) :
     Except String (St × List Char) :=
   if st.dropEnd then .ok ({ st with dropEnd := false }, [])   -- `tb.Shift()` twice: StartTagClose and the end tag
@@ -376,47 +421,18 @@ def step (o : Opts) (ext : Ext) (sub : Sub) (st : St) (t : HTok) (rest : List HT
       else .ok (st0, data)
     else if st.inPre then .ok (st0, data)
     else
-      let d := replaceWsEntities C03Tables.entitiesMap C03Tables.textRevEntitiesMap data
-      let d1 := if st.omitSpace && headIs isWhitespace d then d.drop 1 else d
-      match d1.getLast? with
-      | none => .ok ({ st0 with omitSpace := true }, [])
-      | some l =>
-        if isWhitespace l then
-          if trimRight o.keepWhitespace rest then .ok ({ st0 with omitSpace := false }, d1.dropLast)
-          else .ok ({ st0 with omitSpace := true }, d1)
-        else .ok ({ st0 with omitSpace := false }, d1)
-  | .endTag name data =>
-    let st1 := { st0 with rawTag := [] }
-    let st2 := if hashIs name "template" then { st1 with omitSpace := true } else st1
-    let st3 := if hashIs name "pre" then { st2 with inPre := false } else st2
-    if isDroppedTag o name then .ok (st3, [])
-    else
-      let dt := hashIs name "option" || hashIs name "optgroup"
-      if omitEndTag o name rest then .ok ({ st3 with dropText := dt }, [])
-      else .ok ({ st3 with omitSpace := updOmitSpace o name st3.omitSpace, dropText := dt }, endTagBytes name data)
+      let r := textNormal o.keepWhitespace st.omitSpace data rest
+      .ok ({ st0 with omitSpace := r.1 }, r.2)
+  | .endTag name data => .ok (endStep o st0 name data rest)
   | .startTag name attrs =>
-    let st1 := { st0 with rawTag := [] }
-    let hasAttrs := !attrs.isEmpty
-    let isRaw := has (tagTraits name) C03Tables.rawTag
-    let nextIsEnd := match rest with | .endTag _ _ :: _ => true | _ => false
-    if isRaw && !hasAttrs && (hashIs name "script" || hashIs name "style") && nextIsEnd then
-      .ok ({ st1 with dropEnd := true }, [])
+    if emptyRawElement name attrs rest then .ok ({ st0 with rawTag := [], dropEnd := true }, [])
     else
-      let raw1 := if isRaw then name else []
-      let raw2 := if isRaw && hasAttrs && hashIs name "style" && attrs.any (fun a => hashOf a.name == s "amp-boilerplate")
-                  then [] else raw1
-      let st2 := { st1 with rawTag := raw2, rawMediatype := if isRaw then [] else st1.rawMediatype }
-      let st3 := if hashIs name "pre" then { st2 with inPre := true } else st2
-      if !hasAttrs && isDroppedTag o name then .ok (st3, [])
+      let st3 := startPre st0 name attrs
+      if attrs.isEmpty && isDroppedTag o name then .ok (st3, [])
       else do
-        let st4 := { st3 with omitSpace := updOmitSpace o name st3.omitSpace }
         let as0 ← specialAttrs ext name (attrs.map AttrSt.ofAttr)
-        let (aout, mt) ← writeAttrs o ext sub name st4.rawTag as0 none
-        let st5 := match mt with | some m => { st4 with rawMediatype := m } | none => st4
-        let st6 := { st5 with dropText := hashIs name "select" || hashIs name "optgroup" }
-        let sameEnd := match rest with | .endTag n _ :: _ => hashOf n == hashOf name | _ => false
-        let st7 := if tagTraits name = C03Tables.normalTag && sameEnd then { st6 with omitSpace := false } else st6
-        .ok (st7, '<' :: name ++ aout ++ ['>'])
+        let (aout, mt) ← writeAttrs o ext sub name st3.rawTag as0 none
+        .ok (startPost o st3 name rest mt, '<' :: name ++ aout ++ ['>'])
 
 def run (o : Opts) (ext : Ext) (sub : Sub) : St → List HTok → Except String (List Char)
   | _, [] => .ok []
